@@ -20,6 +20,7 @@ import textwrap
 import threading
 import types
 
+_SIGNAL_CLASSES = {'Event', 'Condition', 'Semaphore', 'BoundedSemaphore', 'Barrier', 'Timer', 'Queue', 'LifoQueue', 'PriorityQueue', 'SimpleQueue'}
 MUTATORS = {'append', 'pop', 'update', 'clear', 'setdefault', 'insert', 'remove', 'extend', 'sort', 'popitem', 'add', 'discard'}
 _LOCK_TYPES = (type(threading.Lock()), type(threading.RLock()))
 
@@ -279,6 +280,18 @@ class Analyzer(object):
                 elif isinstance(node, ast.Call):
                     calls.append((node, lk))
                     f = node.func
+                    sig = None
+                    if isinstance(f, ast.Attribute) and f.attr in _SIGNAL_CLASSES and isinstance(f.value, ast.Name) \
+                            and isinstance(fi.g.get(f.value.id), types.ModuleType) and fi.g[f.value.id].__name__ in ('threading', 'queue', 'multiprocessing'):
+                        sig = '%s.%s()' % (fi.g[f.value.id].__name__, f.attr)
+                    elif isinstance(f, ast.Name) and f.id in _SIGNAL_CLASSES and getattr(fi.g.get(f.id), '__module__', '') in ('threading', 'queue'):
+                        sig = '%s()' % f.id
+                    elif isinstance(f, ast.Attribute) and f.attr in ('wait', 'notify', 'notify_all') and not (isinstance(f.value, ast.Name) and f.value.id in fi.g and is_lock(fi.g[f.value.id])):
+                        sig = '.%s()' % f.attr
+                    if sig:
+                        self.sites.append(dict(function=fi.qual, file=fi.file, line=fi.line(node), location='signal:%s' % sig, ok=False, kind='signalling',
+                                               why='threads hand results to each other through %s: synchronisation other than a module-level lock is outside the '
+                                               'sufficient condition (what a waiting thread finds depends on what the other one did)' % sig, chain=list(chain)))
                     if isinstance(f, ast.Attribute) and f.attr in MUTATORS and isinstance(f.value, ast.Name):
                         nm = f.value.id
                         if is_module_obj(nm) or nm in declared_global:
@@ -328,6 +341,11 @@ class Analyzer(object):
                     if shared_self:
                         writes.append((('self', fi.cls.__name__ if fi.cls else '?', getattr(t, 'attr', '[]')), node, lk,
                                        'stores %s on a receiver that is a module-level (shared) instance' % what, val if isinstance(t, ast.Attribute) and t.value is base else None))
+                elif nm not in shared_params and isinstance(fi.g.get(nm), type) and self.in_pkg(fi.g.get(nm)) and nm not in _names_assigned(fi.tree) \
+                        and isinstance(t, ast.Attribute):
+                    # an attribute of a CLASS of the package is shared by every instance and every thread
+                    writes.append((('class', nm, t.attr if t.value is base else '...'), node, lk,
+                                   'stores the class attribute %s.%s (shared by all instances)' % (nm, getattr(t, 'attr', '?')), val))
                 elif nm not in shared_params and isinstance(fi.g.get(nm), types.ModuleType) and nm not in _names_assigned(fi.tree):
                     # monkey-patching: an attribute of an imported module is process-wide state
                     mod = fi.g[nm]
